@@ -162,6 +162,14 @@ def subterms(m):
     return out
 
 
+def clone(m):
+    """Structurally equal model made of NEW tuple objects (no sharing with m, no internal sharing)."""
+    t = m[0]
+    if t in LEAVES:
+        return (t, m[1])
+    return with_children((t,) + tuple(m[1:]), [clone(c) for c in children(m)])
+
+
 def _canon_num(v):
     """Numeric parameters/values normalised so 2 and 2.0 coincide (as == does)."""
     if isinstance(v, bool):
